@@ -111,7 +111,7 @@ pub fn info() -> PropInfo {
         id: "C14",
         run,
         replay,
-        rule: "cases = (target type, UTF-8 document, cut set); targets are the 18 family types (values compared with ==) and the 26 further targets of C07 (compared through their Debug rendering). Documents: valid ones (serialized generated values), token-level mutations of them and token soup (C07's generators), and valid documents after C15's information-preserving rewrites (text split by CDATA/comments/PIs, references, re-quoted attributes, unknown content). Chunkings: piece sizes 1, 2, 3, 7, whole, and random cut sets through the harness-owned BufRead. Oracle: from_str and from_reader either both fail or both succeed with equal values (error values are not compared). Non-trivial = the document contains mixed text/CDATA, a comment/PI/DOCTYPE, a reference or an element the type skips (i.e. the deserializer has to merge text, skip subtrees or unescape), or the result is Err after at least three tokens.",
+        rule: "cases = (target type, UTF-8 document, cut set); targets are the 20 family types (values compared with ==) and the 26 further targets of C07 (compared through their Debug rendering). Documents: valid ones (serialized generated values), token-level mutations of them and token soup (C07's generators), and valid documents after C15's information-preserving rewrites (text split by CDATA/comments/PIs, references, re-quoted attributes, unknown content). Chunkings: piece sizes 1, 2, 3, 7, whole, and random cut sets through the harness-owned BufRead. Oracle: from_str and from_reader either both fail or both succeed with equal values (error values are not compared). Non-trivial = the document contains mixed text/CDATA, a comment/PI/DOCTYPE, a reference or an element the type skips (i.e. the deserializer has to merge text, skip subtrees or unescape), or the result is Err after at least three tokens.",
         assumptions: &["the document does not declare a non-UTF-8 encoding and does not start with a UTF-16 byte-order mark or the UTF-16 `<?` signature (the documented auto-detection would treat it as UTF-16 when read from a reader)", "when the document starts with a byte-order mark the first piece has at least 4 bytes (the sniff looks only at the first piece, cf. C02)"],
         level: "exploration",
         variants: &["full", "min"],
